@@ -2,8 +2,9 @@ SPECIFICATION LSpec
 CONSTANTS
   MaxPieces = 0
   MaxPhrase = 0
-  MaxTmpl = 5
-  Hosts = {"tmpl_raw"}
+  MaxTmpl = 4
+  MaxDeep = 5
+  Hosts = {"tmpl_raw", "tmpl_raw_deep"}
   EmitAll = TRUE
 INVARIANTS Emit
 CHECK_DEADLOCK FALSE
